@@ -99,10 +99,13 @@ def valueDigest (a : Args) : Outcome Out → String
       | _ => none
     Drv.DecApi.digest msgs false
 
-def modelAnswer (a : Args) : String :=
+/-- `withM`: the answer carries the value digest (not inside the exhaustive sweeps of `dfragx`) -/
+def modelAnswerG (withM : Bool) (a : Args) : String :=
   let o := runOn a a.schedule a.bufSize
-  showOutcome o ++ " m=" ++ valueDigest a o ++
+  showOutcome o ++ (if withM then " m=" ++ valueDigest a o else "") ++
     (if vApplies a then (if sameOutcome o (reference a) then " v=same" else " v=diff") else " v=na")
+
+def modelAnswer (a : Args) : String := modelAnswerG true a
 
 def fnvStr (d : UInt64) (s : String) : UInt64 :=
   let d := s.foldl (fun d c => (d ^^^ c.toNat.toUInt64) * 0x100000001b3) d
@@ -122,13 +125,13 @@ def sweepAnswer (a : Args) : String := Id.run do
       let c1 : Chunk := ⟨bs.take cut, none⟩
       let c2 : Chunk := ⟨bs.drop cut, if how == 1 then some .eof else none⟩
       let s : Sched := if how == 2 then [c1, c2, ⟨[], some .eof⟩] else [c1, c2]
-      let ans := modelAnswer { a with sched := some s }
+      let ans := modelAnswerG false { a with sched := some s }
       d := fnvStr d ans
       n := n + 1
       if ans.endsWith "v=diff" then diffs := diffs + 1
   for k in [0:L+1] do
     let s : Sched := [⟨bs.take k, none⟩, ⟨[], some (.custom 7)⟩]
-    let ans := modelAnswer { a with sched := some s }
+    let ans := modelAnswerG false { a with sched := some s }
     d := fnvStr d ans
     n := n + 1
   return s!"n={n} d={hexN 16 d.toNat} diff={diffs}"
